@@ -530,6 +530,7 @@ func c12Read(reader string, t uint8, rcv *c12Sess, pieces [][]byte) (string, *c1
 
 func runC12(c *Ctx) {
 	kinds := []uint8{c2.VerifC12InfoHello, c2.VerifC12InfoMigrate, c2.VerifC12InfoRefresh, c2.VerifC12InfoSync, c2.VerifC12InfoProxy, c2.VerifC12InfoSyncMigrate}
+	c12Noproxy(c) // the proxy-section reader of the noproxy build variant (c12_s3.go)
 
 	// A. every message kind: write with the real writer (packet body and stream writer), read with
 	// the real reader (packet body and stream with short reads) into a Session holding other values.
